@@ -185,6 +185,89 @@ func concretise(c *GuardCase) (dec string, inputs [][]byte) {
 		put32(b, 40, top(c.i("l2"), 16, 44))
 		return "header", [][]byte{b}
 
+	case "t2store":
+		var cs []byte
+		if c.i("prior") == 1 {
+			cs = append(cs, mutate.T2Num(1)[0], mutate.T2Num(0)[0], 12, 20)
+		}
+		m := mutate.T2Num(c.i("m"))
+		if c.X["o"] == "put" {
+			cs = append(append(cs, mutate.T2Num(7)...), m...)
+			cs = append(cs, 12, 20)
+		} else {
+			cs = append(append(cs, m...), 12, 21, 12, 18)
+		}
+		cs = append(cs, 14)
+		return "cff", [][]byte{mutate.CFFWithCharstrings([][]byte{cs}, nil, nil)}
+
+	case "t2stack":
+		var cs []byte
+		for k := 1; k <= c.i("depth"); k++ {
+			cs = append(cs, mutate.T2Num(k)...)
+		}
+		cs = append(cs, mutate.T2Num(c.i("n"))...)
+		if c.X["o"] == "index" {
+			cs = append(cs, 12, 29)
+		} else {
+			cs = append(append(cs, mutate.T2Num(c.i("j"))...), 12, 30)
+		}
+		cs = append(cs, 14)
+		return "cff", [][]byte{mutate.CFFWithCharstrings([][]byte{cs}, nil, nil)}
+
+	case "sum":
+		k, pct := c.i("k"), c.i("pct")
+		t := &buf{}
+		switch c.X["kind"] {
+		case "cmap12":
+			sz := uint32(65536 * pct / 100)
+			t.u16(0, 1, 3, 10)
+			t.u32(12)
+			t.u16(12, 0)
+			t.u32(uint32(16+12*k), 0, uint32(k))
+			for i := uint32(0); i < uint32(k); i++ {
+				t.u32(0x10000+i*sz, 0x10000+(i+1)*sz-1, 1)
+			}
+			return "cmap", [][]byte{t.b}
+		case "cover":
+			sz := 65536 * pct / 100
+			t.u16(2, k)
+			pos := 0
+			for i := 0; i < k; i++ {
+				start := i * sz
+				if k*pct > 100 {
+					start = i // overlapping: only the disjointness test stands between k ranges and k*sz entries
+				}
+				end := start + sz - 1
+				if end > 65535 {
+					end = 65535
+				}
+				t.u16(start, end, pos&0xFFFF)
+				pos += end - start + 1
+			}
+			return "coverage", [][]byte{t.b}
+		case "name":
+			ln := 65534 * pct / 100 &^ 1
+			t.u16(0, k, 6+12*k)
+			for i := 0; i < k; i++ {
+				t.u16(3, 1, 0x409, 1+i, ln, 0)
+			}
+			for i := 0; i < ln/2; i++ {
+				t.u16('A')
+			}
+			return "name", [][]byte{t.b}
+		case "kern":
+			np := 100 * pct
+			t.u16(0, k)
+			for i := 0; i < k; i++ {
+				t.u16(0, 14, 1, np, 0, 0, 0)
+			}
+			for i := 0; i < np+3*k; i++ {
+				t.u16(2+i%7, 3+i%11, i%50-25)
+			}
+			return "kern", [][]byte{t.b}
+		}
+		return "", nil
+
 	case "classdef":
 		start, count := c.i("start")*8192, c.i("count")*8192
 		if count > 65535 {
@@ -301,7 +384,7 @@ func cmdGuards(casesPath, tracePath string) {
 				}
 				ev.Site = siteCache[c.Guard]
 			}
-			if (r.Outcome == "panic" || len(r.BadAcc) > 0 || overBudget(r.AllocKiB, len(in))) && len(in) <= 1<<16 {
+			if (r.Outcome == "panic" || len(r.BadAcc) > 0 || overBudget(r.AllocKiB, len(in))) && len(in) <= 1<<18 {
 				ev.Data = base64.StdEncoding.EncodeToString(in)
 			}
 			out.Emit(ev)
